@@ -415,4 +415,172 @@ theorem attr_select_foreign (env : Env F) (strict : Bool) (a : AttrD) (n : Strin
     cri_junk env.lex j0 js hj0s hj047 hj hsemi _ rest d false sk .warning hd]
   rfl
 
+/-! ## a REAL token with something behind it -/
+
+/-- `ReadReal` on a token of the grammar `real` whose denotation converts, with something behind it that is no digit, no
+    `E`/`e`, no blank, no `/` and holds no delimiter (nor `;`): the value is assigned, the rest reported: WARNING -/
+theorem readReal_tok_junk (ops : FloatOps F) (lex : LexCfg)
+    (tok : List Byte) (dec : Decimal) (v : F) (htok : isReal tok = true) (hden : denoteReal tok = some dec)
+    (hv : ops.ofDecimal dec = some v) (hbuf : lex.realBuf = 0 ∨ tok.length < lex.realBuf)
+    (j0 : Byte) (js : List Byte) (hj0s : isSpace j0 = false) (hj047 : j0 ≠ 47) (hj0d : isDigit j0 = false)
+    (hj0e : j0 ≠ 101) (hj0E : j0 ≠ 69)
+    (hj : ∀ b ∈ j0 :: js, delimAt lex attrDelims b = false)
+    (hsemi : lex.criStopsAtSemicolon = true → ∀ b ∈ j0 :: js, b ≠ 59)
+    (l : List Byte) (sk : Bool) (d : Byte) (rest : List Byte) (hd : d = 44 ∨ d = 41) :
+    readReal ops lex (some attrDelims) (G l (tok ++ (j0 :: (js ++ d :: rest))) sk) .null =
+      .ok (some v, G ((j0 :: js).reverse ++ (tok.reverse ++ l)) (d :: rest) sk, .warning) := by
+  obtain ⟨sg, ip, fp, ex, rfl, hsg, hip1, hip, hfp, hex⟩ := isReal_shape tok htok
+  obtain ⟨c, u, hcu, hcs⟩ : ∃ c u, realText sg ip fp 69 ex = c :: u ∧ isSpace c = false := by
+    obtain ⟨i0, iu, rfl⟩ : ∃ i0 iu, ip = i0 :: iu := by
+      cases ip with
+      | nil => exact absurd rfl hip1
+      | cons i0 iu => exact ⟨i0, iu, rfl⟩
+    have hi0 : isDigit i0 = true := by simp at hip; exact hip.1
+    rcases hsg with rfl | rfl | rfl
+    · exact ⟨i0, iu ++ 46 :: (fp ++ exText 69 ex), by simp [realText], digit_not_space hi0⟩
+    · exact ⟨43, i0 :: (iu ++ 46 :: (fp ++ exText 69 ex)), by simp [realText], by decide⟩
+    · exact ⟨45, i0 :: (iu ++ 46 :: (fp ++ exText 69 ex)), by simp [realText], by decide⟩
+  have hcont : RealCont (j0 :: (js ++ d :: rest)) := Or.inr ⟨j0, _, rfl, hj0d, hj0e, hj0E⟩
+  have hcol := realCollect_realText sg ip fp ex (j0 :: (js ++ d :: rest)) hsg hip1 hip hfp hex hcont
+  have hparse := parse_scanFloat_realText sg ip fp 69 ex hsg hip1 hip hfp (Or.inl rfl) hex
+  have hden' := parse_realText sg ip fp 69 ex hsg hip1 hip hfp (Or.inl rfl) hex
+  have hdec : dec = ⟨sg == [45], digitsVal (ip ++ fp) 0, exVal ex - (fp.length : Int)⟩ := by
+    unfold denoteReal at hden; rw [hden'] at hden; simpa using hden.symm
+  have hconv : ops.conv (scanFloat [] (realText sg ip fp 69 ex)).1 = .ok v := by
+    unfold FloatOps.conv; rw [hparse]; simp only; rw [← hdec, hv]
+  have hov : (lex.realBuf != 0 && decide ((realText sg ip fp 69 ex).length ≥ lex.realBuf)) = false := by
+    rcases hbuf with h0 | hlt
+    · simp [h0]
+    · simp; intro _; omega
+  have hcri := cri_junk lex j0 js hj0s hj047 hj hsemi ((realText sg ip fp 69 ex).reverse ++ l) rest d false sk Sev.null hd
+  rw [hcu] at hcol hconv hov hcri ⊢
+  simp only [List.cons_append, readReal, ws_good0 _ _ _ _ hcs, IStream.good, Bool.not_false, Bool.and_self, Bool.not_true,
+    Bool.false_eq_true, if_false]
+  simp only [List.cons_append] at hcol
+  simp only [hcol, hov, Bool.false_eq_true, if_false, hconv, List.isEmpty_cons, List.append_nil]
+  simp only [show Sev.null.greater Sev.null = Sev.null from rfl, hcri]
+  rfl
+
+/-- a REAL token followed directly by something else (`1.5X`, `2.0'a'`) for a REAL attribute: the real is stored (unless it
+    is the in-band null), the rest reported: WARNING, the stream at the delimiter -/
+theorem attr_real_then_junk (env : Env F) (strict : Bool) (a : AttrD) (hty : a.ty = .one .real) (hder : a.derived = false)
+    (tok : List Byte) (dec : Decimal) (v : F) (htok : isReal tok = true) (hden : denoteReal tok = some dec)
+    (hv : env.ops.ofDecimal dec = some v) (hnn : env.ops.isRealNull v = false)
+    (hbuf : env.lex.realBuf = 0 ∨ tok.length < env.lex.realBuf)
+    (j0 : Byte) (js : List Byte) (hj0s : isSpace j0 = false) (hj047 : j0 ≠ 47) (hj0d : isDigit j0 = false)
+    (hj0e : j0 ≠ 101) (hj0E : j0 ≠ 69)
+    (hj : ∀ b ∈ j0 :: js, delimAt env.lex attrDelims b = false)
+    (hsemi : env.lex.criStopsAtSemicolon = true → ∀ b ∈ j0 :: js, b ≠ 59)
+    (l : List Byte) (sk : Bool) (d : Byte) (rest : List Byte) (hd : d = 44 ∨ d = 41) :
+    attrSTEPread env strict a (G l (tok ++ (j0 :: (js ++ d :: rest))) sk) =
+      .ok (.warning, .one (.atom (.real v)), G ((j0 :: js).reverse ++ (tok.reverse ++ l)) (d :: rest) sk) := by
+  have hr := readReal_tok_junk env.ops env.lex tok dec v htok hden hv hbuf j0 js hj0s hj047 hj0d hj0e hj0E hj hsemi l sk d rest hd
+  obtain ⟨c, u, hcu, hcs, hc36, hc44, hc41, _, _⟩ := number_head tok (Or.inl htok)
+  have hrS := readRealS_of env.ops env.lex _ _ _ _ _ _ hr (show realSentinel env.ops (some v) = false from hnn)
+  unfold attrSTEPread
+  rw [hcu] at hrS ⊢
+  simp only [List.cons_append] at hrS ⊢
+  rw [show (G l (c :: (u ++ (j0 :: (js ++ d :: rest)))) sk).ws = G l (c :: (u ++ (j0 :: (js ++ d :: rest)))) sk from ws_good0 l c _ sk hcs]
+  simp only [bind, Except.bind, pure, Except.pure]
+  rw [show (G l (c :: (u ++ (j0 :: (js ++ d :: rest)))) sk).peekC = (c, G l (c :: (u ++ (j0 :: (js ++ d :: rest)))) sk) from peekC_good l c _ sk]
+  have e36 : (c == 36) = false := by simpa using hc36
+  have e44 : (c == 44) = false := by simpa using hc44
+  have e41 : (c == 41) = false := by simpa using hc41
+  simp only [hder, Bool.false_eq_true, if_false, e36, e44, e41, Bool.or_self, hty]
+  unfold attrSTEPread.scalarNodeReadAttr
+  simp only [hrS, liftOutcome, bind, Except.bind, pure, Except.pure]
+  simp [realValue, hnn, valueToAtom]
+
+/-! ## a violation inside a typed select value -/
+
+/-- the value between the parentheses of a typed select is read with severity `sev` to `a`; after `in >> ws` the stream
+    rests at the `)` (`LeafRd` is the case NULL with blanks behind the value) -/
+def LeafRdS (env : Env F) (m : SelMember) (tok : List Byte) (a : Atom F) (sev : Sev) : Prop :=
+  (∃ c u, tok = c :: u ∧ isSpace c = false) ∧
+  ∀ (l : List Byte) (sk : Bool) (rest : List Byte),
+    ∃ S sk', (sk' = sk ∨ sk' = false) ∧
+      selContentRead env m (G l (tok ++ 41 :: rest) sk) = .ok (sev, a, S) ∧
+      S.ws = G (tok.reverse ++ l) (41 :: rest) sk'
+
+/-- `SDAI_Select::STEPread` case B with a value that reports: the severity is what the select returns -/
+theorem selectRead_typed_sev (env : Env F) (sd : SelectD) (m : SelMember) (n0 : Byte) (ns : List Byte)
+    (hn0 : isAlpha n0 = true) (hns : ns.all selc = true)
+    (hfind : sd.members.find? (fun x => x.name == bytesToString (upperBytes (n0 :: ns)) && !x.ty.isEntity) = some m)
+    (tok : List Byte) (a : Atom F) (sev : Sev) (hleaf : LeafRdS env m tok a sev) (sA sB : List Byte) (hsA : sA.all isSpace = true)
+    (hsB : sB.all isSpace = true) (l : List Byte) (sk : Bool) (rest : List Byte) :
+    ∃ sk', (sk' = sk ∨ sk' = false) ∧
+      selectRead env sd (G l (n0 :: (ns ++ (sA ++ 40 :: (sB ++ (tok ++ 41 :: rest))))) sk) =
+        .ok (sev, .sel m.name a,
+             G (41 :: (tok.reverse ++ (sB.reverse ++ 40 :: (sA.reverse ++ (ns.reverse ++ n0 :: l))))) rest sk') := by
+  obtain ⟨hn0s, _, _, hn040, _, _, _, _, _⟩ := alpha_facts hn0
+  obtain ⟨⟨c, u, hcu, hcs⟩, hrd⟩ := hleaf
+  obtain ⟨S, sk', hsk', hcr, hws⟩ := hrd (sB.reverse ++ 40 :: (sA.reverse ++ (ns.reverse ++ n0 :: l))) sk rest
+  refine ⟨sk', hsk', ?_⟩
+  have hsel0 : selc n0 = true := by simp [selc, hn0s, hn040]
+  unfold selectRead
+  rw [show (G l (n0 :: (ns ++ (sA ++ 40 :: (sB ++ (tok ++ 41 :: rest))))) sk).ws = _ from ws_good0 l n0 _ sk hn0s]
+  simp only [bind, Except.bind, pure, Except.pure]
+  rw [shiftInto_good 0 l n0 _ sk hn0s]
+  simp only [hn0, if_true]
+  rw [selNameLoop_word ns hns sA hsA _ sk _ [] n0 (n0 :: l) hsel0 (by simp only [G, List.length_append, List.length_cons]; omega)]
+  simp only [List.nil_append, hfind]
+  rw [hcu, show (G (40 :: (sA.reverse ++ (ns.reverse ++ n0 :: l))) (sB ++ (c :: u ++ 41 :: rest)) sk).ws =
+    G (sB.reverse ++ 40 :: (sA.reverse ++ (ns.reverse ++ n0 :: l))) (c :: u ++ 41 :: rest) sk from ws_good _ sB c _ sk hsB hcs]
+  rw [← hcu, hcr]
+  simp only [hws]
+  rw [shiftInto_good n0 _ 41 rest sk' (by decide)]
+  simp
+
+/-- **a typed select value whose value reports** (`LEN_T('abc')`, `CNT_T(x)`): the attribute's severity is the value's (at
+    WARNING or INCOMPLETE `CheckRemainingInput` finds only layout behind the `)`), the stream rests at the delimiter -/
+theorem attr_select_typed_sev (env : Env F) (strict : Bool) (a : AttrD) (n : String) (hty : a.ty = .one (.select n))
+    (hder : a.derived = false) (hcfg : env.lex.criSkipsComments = true) (sd : SelectD) (hsd : env.dict.select? n = some sd)
+    (m : SelMember) (n0 : Byte) (ns : List Byte) (hn0 : isAlpha n0 = true) (hns : ns.all selc = true)
+    (hfind : sd.members.find? (fun x => x.name == bytesToString (upperBytes (n0 :: ns)) && !x.ty.isEntity) = some m)
+    (tok : List Byte) (av : Atom F) (sev : Sev) (hleaf : LeafRdS env m tok av sev) (sA sB : List Byte)
+    (hsA : sA.all isSpace = true) (hsB : sB.all isSpace = true)
+    (l : List Byte) (sk : Bool) (seps : List Byte) (hs : Seps seps) (d : Byte) (rest : List Byte) (hd : d = 44 ∨ d = 41) :
+    ∃ sk', (sk' = sk ∨ sk' = false) ∧
+      attrSTEPread env strict a (G l (n0 :: (ns ++ (sA ++ 40 :: (sB ++ (tok ++ 41 :: (seps ++ d :: rest)))))) sk) =
+        .ok (sev, .one (.sel m.name av),
+             G (seps.reverse ++ (41 :: (tok.reverse ++ (sB.reverse ++ 40 :: (sA.reverse ++ (ns.reverse ++ n0 :: l)))))) (d :: rest) sk') := by
+  obtain ⟨hn0s, _, _, _, _, _, _, _, _⟩ := alpha_facts hn0
+  have hn036 : (n0 == 36) = false := by
+    have : n0 ≠ 36 := by intro h; rw [h] at hn0; exact absurd hn0 (by decide)
+    simpa using this
+  have hn044 : (n0 == 44) = false := by
+    have : n0 ≠ 44 := by intro h; rw [h] at hn0; exact absurd hn0 (by decide)
+    simpa using this
+  have hn041 : (n0 == 41) = false := by
+    have : n0 ≠ 41 := by intro h; rw [h] at hn0; exact absurd hn0 (by decide)
+    simpa using this
+  obtain ⟨sk', hsk', hsr⟩ := selectRead_typed_sev env sd m n0 ns hn0 hns hfind tok av sev hleaf sA sB hsA hsB l sk (seps ++ d :: rest)
+  refine ⟨sk', hsk', ?_⟩
+  unfold attrSTEPread
+  rw [show (G l (n0 :: (ns ++ (sA ++ 40 :: (sB ++ (tok ++ 41 :: (seps ++ d :: rest)))))) sk).ws = _ from ws_good0 l n0 _ sk hn0s]
+  simp only [bind, Except.bind, pure, Except.pure]
+  rw [peekC_good]
+  simp only [hder, Bool.false_eq_true, if_false, hn036, hn044, hn041, Bool.or_self, hty, hsd, hsr]
+  rw [cri_seps env.lex hcfg seps hs _ rest d false sk' sev hd]
+
+/-- the value of an INTEGER member that starts like no integer (`CNT_T('a')`, `CNT_T(.T.)`; no `,` `)` `;` inside): nothing
+    stored, WARNING -/
+theorem LeafRdS.integer_junk (env : Env F) (m : SelMember) (hm : m.ty = .integer)
+    (j0 : Byte) (js : List Byte) (hj0s : isSpace j0 = false) (hj047 : j0 ≠ 47)
+    (hj0d : isDigit j0 = false) (hj043 : j0 ≠ 43) (hj045 : j0 ≠ 45)
+    (hj : ∀ b ∈ j0 :: js, delimAt env.lex attrDelims b = false)
+    (hsemi : env.lex.criStopsAtSemicolon = true → ∀ b ∈ j0 :: js, b ≠ 59) :
+    LeafRdS env m (j0 :: js) .unset .warning := by
+  refine ⟨⟨j0, js, rfl, hj0s⟩, ?_⟩
+  intro l sk rest
+  have hr := readInteger_junk env.lex j0 js hj0s hj047 hj0d hj043 hj045 hj hsemi l sk 41 rest (Or.inr rfl)
+  refine ⟨_, sk, Or.inl rfl, ?_, ws_good0 _ 41 rest sk (by decide)⟩
+  unfold selContentRead
+  simp only [hm]
+  rw [show (if (ElemTy.integer == ElemTy.number) = true then ElemTy.real else ElemTy.integer) = ElemTy.integer from rfl,
+    scalarNodeRead_integer]
+  simp only [List.cons_append] at hr ⊢
+  rw [hr]
+  simp [intValue, valueToAtom]
+
 end StepModel.P21.RLemmas
